@@ -210,3 +210,675 @@ def run_c12(run, thorough=False):
         run.violate("C12: an accepted statement yields a malformed or truncated instruction ({})".format(verdict[0]),
                     {"lines": c["lines"], "statement": "%s %s" % (st["mn"], st["opnd"])}, "one complete instruction of that mnemonic, size = bytes",
                     {"class": verdict[0], "detail": verdict[1]}, known_id=rid if (rid and same) else None)
+
+
+# ------------------------------------------------------------------ helpers on implementation results
+
+def stmt_int_addr(st):
+    return int(st["addr"], 16) if st["addr"] else None
+
+
+def symtab_ints(im):
+    return {k: (int(v, 16) if v else None) for k, v in im["symtab"]}
+
+
+def proj_layout(r):
+    """what C02 observes: addresses, sizes, byte counts, symbols, image, origin"""
+    if r.get("k") != "ok":
+        return {"k": r.get("k")}
+    return {"k": "ok", "stmts": [[s["addr"], s["size"], s["bytes"], s["label"], s["mn"]] for s in r["stmts"]],
+            "symtab": r["symtab"], "image": r["image"], "origin": r["origin"]}
+
+
+def size_region(im):
+    """region id of the first statement whose byte count differs from its listed size (addresses after it are off)"""
+    for st in im["stmts"]:
+        if st["bytes"] is not None and len(st["bytes"]) // 2 != st["size"]:
+            return region_of_text(st["opnd"] or "")
+    return None
+
+
+# ------------------------------------------------------------------ C02
+
+def layout_programs(rnd, n):
+    """directed layout cases: later ORG, code before ORG, duplicate and undefined symbols, origins below $100"""
+    out = []
+    L = gen_asm.L
+    for org in ("$10", "$100", "$0E00", "0", "$FF00", "$FFF0"):
+        out.append({"lines": L(" ORG " + org, "A LDA #1", "B STA $400", " JMP A", "C FCB 1,2,3", "D RMB 5", "E FDB $1234,5", " END A"), "tag": "org-first", "meta": {}})
+    out.append({"lines": L(" NOP", " ORG $10", " NOP", " ORG $5", " NOP"), "tag": "org-later", "meta": {"b1": True}})
+    out.append({"lines": L(" ORG $100", "A NOP", " ORG $200", "B NOP", " JMP A", " JMP B"), "tag": "org-later", "meta": {"b1": True}})
+    out.append({"lines": L("A NOP", " ORG $300", "B NOP"), "tag": "code-before-org", "meta": {"b1": True}})
+    out.append({"lines": L("A NOP", "A NOP"), "tag": "dup", "meta": {"reject": True}})
+    out.append({"lines": L("A EQU 5", "A NOP"), "tag": "dup", "meta": {"reject": True}})
+    out.append({"lines": L("A NOP", " NOP", "A EQU 5"), "tag": "dup", "meta": {"reject": True}})
+    for t in ("LDA UNDEF", "LDX #UNDEF", "JMP [UNDEF]", "BRA UNDEF", "LEAX UNDEF,PCR", "LDA UNDEF,X", "LDA UNDEF+1", "LBSR UNDEF"):
+        out.append({"lines": L("A NOP", " " + t), "tag": "undef", "meta": {"reject": True}})
+    return out
+
+
+def run_c02(run, thorough=False):
+    rnd = random.Random(run.seed * 211 + 3)
+    n = 250 if not thorough else 3000
+    cases = layout_programs(rnd, n) + list(gen_asm.random_programs(rnd, n, valid_bias=0.97)) + \
+        [c for c in gen_asm.mutations(rnd, n)] + list(gen_asm.symbol_matrix(rnd))[:: (1 if thorough else 9)]
+    res = fam_asm.compare_progs(run, "asm.layout", cases, project=proj_layout)
+    bad = {fam_asm_key(d["input"]) for d in run.disagreements}
+    for c, im, rep in res:
+        run.case("asm.layout", {"src": [l.strip() for l in c["lines"]][:10]}, [im["k"], len(im.get("stmts", []))], nontrivial=im["k"] == "ok", sample_every=211)
+        run.dist["c02." + c["tag"] + "." + im["k"]] += 1
+        same = fam_asm_key({"lines": c["lines"], "files": None}) not in bad
+        inp = {"lines": c["lines"]}
+        if c["meta"].get("reject"):
+            if im["k"] != "diag":
+                run.violate("C02: a label defined twice / a symbol never defined is not rejected with a diagnostic", inp, "diag", im["k"])
+            continue
+        if im["k"] != "ok":
+            continue
+        if any(s["bytes"] is None or s["addr"] is None for s in im["stmts"]) or im["image"] is None:
+            continue          # C13's business
+        stmts = im["stmts"]
+        # (1) image is the in-order concatenation
+        if im["image"] != "".join(s["bytes"] for s in stmts):
+            run.violate("C02: the image is not the in-order concatenation of the statements' bytes", inp, "concat", im["image"][:80])
+        # (2) addresses advance by the number of bytes emitted (an ORG statement may set a new address)
+        for a, b in zip(stmts, stmts[1:]):
+            if b["mn"] == "ORG":
+                continue
+            if stmt_int_addr(b) != stmt_int_addr(a) + len(a["bytes"]) // 2:
+                rid = size_region(im)
+                run.violate("C02: a listing address does not advance by the number of bytes the previous statement emits", inp,
+                            {"after": [a["mn"], a["opnd"], a["addr"], a["bytes"]], "expected": "%04X" % (stmt_int_addr(a) + len(a["bytes"]) // 2)},
+                            {"listed": b["addr"]}, known_id=rid if (rid and same) else None)
+                break
+        # (3) every label has the listing address of the statement it labels
+        syms = symtab_ints(im)
+        for s in stmts:
+            if s["label"] and s["mn"] != "EQU" and syms.get(s["label"]) != stmt_int_addr(s):
+                run.violate("C02: a label's symbol-table value is not the listing address of its statement", inp, [s["label"], s["addr"]], syms.get(s["label"]))
+                break
+        # (5) an ORG that is not first: rejected, or the image still places bytes at address - origin
+        emitted_before = False
+        org_bad = False
+        for s in stmts:
+            if s["mn"] == "ORG" and emitted_before:
+                org_bad = True
+            if s["bytes"]:
+                emitted_before = True
+        seen_org = any(s["mn"] == "ORG" for s in stmts)
+        if org_bad or (seen_org and stmts and stmts[0]["mn"] != "ORG" and any(s["bytes"] for s in stmts[:[x["mn"] for x in stmts].index("ORG")])):
+            origin = int(im["origin"], 16) if im["origin"] else 0
+            off = 0
+            ok = True
+            for s in stmts:
+                if s["bytes"] and stmt_int_addr(s) - origin != off:
+                    ok = False
+                    break
+                off += len(s["bytes"]) // 2
+            if not ok:
+                run.violate("C02: statements cannot be laid out contiguously from one origin (later ORG / code before ORG) yet the program is accepted "
+                            "and the image does not place the bytes at the listed addresses", inp, "rejected, or offsets = address - origin",
+                            {"origin": im["origin"], "stmts": [[s["mn"], s["addr"]] for s in stmts][:8]}, known_id="B1" if same else None)
+
+
+# ------------------------------------------------------------------ C03
+
+REL_RE = re.compile(r"^\[?(?P<lab>[A-Za-z@][\w@]*)(?P<k>[+-]\d+)?,PCR\]?$")
+BR_RE = re.compile(r"^(?P<lab>[A-Za-z@][\w@]*)(?P<k>[+-]\d+)?$")
+
+
+def run_c03(run, thorough=False):
+    rnd = random.Random(run.seed * 727 + 13)
+    cases = list(gen_asm.branch_sweep(rnd, thorough)) + list(gen_asm.pcr_interacting(rnd, 60 if not thorough else 1500)) + \
+        list(gen_asm.random_programs(rnd, 150 if not thorough else 2000, valid_bias=0.97))
+    res = fam_asm.compare_progs(run, "asm.disp", cases, project=proj_layout)
+    bad = {fam_asm_key(d["input"]) for d in run.disagreements}
+    todo = []
+    for c, im, rep in res:
+        run.case("asm.disp", {"tag": c["tag"], "n": len(c["lines"]), "first": c["lines"][0].strip()}, [im["k"], c["tag"]], nontrivial=True, sample_every=97)
+        run.dist["c03." + c["tag"] + "." + im["k"]] += 1
+        if im["k"] == "timeout" or im["k"] == "internal":
+            run.violate("C13/C03: assembling a program with interdependent PCR sizes does not end with output or a diagnostic", {"lines": c["lines"]}, "ok|diag", im["k"])
+            continue
+        if im["k"] != "ok":
+            # a rejected short branch must really be out of range (checked on the generator's distance)
+            if c["tag"] in ("short-fwd", "short-bwd"):
+                n = len(c["lines"]) - 2
+                dist = n if c["tag"] == "short-fwd" else -(n + 1 + 2)
+                if -128 <= dist <= 127:
+                    run.violate("C03: a short branch whose target is in range is rejected", {"lines": c["lines"][:3] + ["..."]}, "accepted", im["k"])
+            elif c["tag"] not in ("random",):
+                if not (c["tag"] in ("long-far", "pcr-far")):
+                    run.violate("C03: a branch / PCR program that is valid is rejected", {"lines": c["lines"][:3] + ["..."], "n": len(c["lines"])}, "accepted", im["k"])
+            continue
+        syms = symtab_ints(im)
+        for i, st in enumerate(im["stmts"]):
+            row = ROWS.get(st["mn"])
+            if row is None or row.is_pseudo or st["bytes"] is None:
+                continue
+            m = None
+            if row.is_short_branch or row.is_long_branch:
+                m = BR_RE.match(st["opnd"] or "")
+                kind = "branch"
+            else:
+                m = REL_RE.match(st["opnd"] or "")
+                kind = "pcr"
+            if not m or m.group("lab") not in syms or syms[m.group("lab")] is None:
+                if (row.is_short_branch or row.is_long_branch):
+                    todo.append((c, im, i, st, None, "branch-nonlabel"))
+                continue
+            todo.append((c, im, i, st, syms[m.group("lab")] + int(m.group("k") or 0), kind))
+    decs = oracle_asm.decode_all([st["bytes"] for (c, im, i, st, tgt, kind) in todo])
+    for (c, im, i, st, tgt, kind), d in zip(todo, decs):
+        same = fam_asm_key({"lines": c["lines"], "files": None}) not in bad
+        inp = {"lines": c["lines"] if len(c["lines"]) < 40 else c["lines"][:3] + ["... (%d lines)" % len(c["lines"])], "statement": [i, st["mn"], st["opnd"]]}
+        if kind == "branch-nonlabel":
+            run.violate("C03: a branch to something that is not a label (+constant) is accepted", inp, "diag or a displacement reaching the target",
+                        st["bytes"], known_id="B3" if same else None)
+            continue
+        addr = stmt_int_addr(st)
+        if not d.get("ok") or d["n"] != len(st["bytes"]) // 2:
+            rid = region_of_text(st["opnd"])
+            run.violate("C03: a branch / PCR statement does not decode as one instruction", inp, "one instruction", st["bytes"], known_id=rid if same else None)
+            continue
+        disp = d.get("d") if d["mode"] == "rel" else d.get("off")
+        if disp is None or (d["mode"] == "idx" and d.get("k") != "pcr"):
+            run.violate("C03: a label,PCR operand is not encoded as a PC-relative operand", inp, "pcr", {k: d[k] for k in d if k not in ("id", "ok")})
+            continue
+        if (addr + d["n"] + disp - tgt) % 65536 != 0:
+            rid = size_region(im) or ("B3" if kind == "branch" and BR_RE.match(st["opnd"]).group("k") else None)
+            run.violate("C03: (address of the following instruction + displacement) mod 65536 is not the address of the referenced label (+constant)", inp,
+                        {"next": addr + d["n"], "target": tgt}, {"bytes": st["bytes"], "displacement": disp},
+                        known_id=rid if (rid and same) else None)
+
+
+# ------------------------------------------------------------------ C04
+
+def expr_value(a, b, op):
+    if op == "+":
+        return a + b
+    if op == "-":
+        return a - b
+    if op == "*":
+        return a * b
+    if b == 0:
+        return None
+    return a // b
+
+
+def region_c04(meta, val):
+    pos = meta["pos"]
+    if pos == "equ":
+        return "C4"                      # EQU of an expression is not evaluated
+    if pos in ("fdb", "fcb"):
+        return "C2"                      # expressions / symbols in data directives emit 0
+    if pos == "idx":
+        return "A3"
+    if pos == "pcr":
+        return "A9"
+    if pos == "extind":
+        return "A7"
+    if pos == "imm":
+        return "A8"
+    if pos == "mem":
+        return "A13"
+    return None
+
+
+def run_c04(run, thorough=False):
+    rnd = random.Random(run.seed * 101 + 7)
+    cases = list(gen_asm.expr_matrix(rnd))
+    if not thorough:
+        cases = [c for c in cases if rnd.random() < 0.3]
+    # label expressions in the positions that support them, label defined before and after use
+    for org in ("$0E00", "$200"):
+        for late in (False, True):
+            for mn, t, pos, k in (("LDX", "#L+1", "imm", 1), ("LDA", "L+1", "mem", 1), ("JMP", "L-1", "mem", -1), ("LEAX", "L+1,PCR", "pcr", 1),
+                                  ("LDD", "#L-2", "imm", -2), ("LDA", "L+255", "mem", 255)):
+                body = [" %s %s" % (mn, t), " NOP", "L NOP"] if late else ["L NOP", " NOP", " %s %s" % (mn, t)]
+                cases.append({"lines": gen_asm.L(*([" ORG " + org] + body)), "tag": "label-expr",
+                              "meta": {"mn": mn, "pos": pos, "k": k, "stmt": 1 if late else 3, "label": True}})
+    res = fam_asm.compare_progs(run, "asm.expr", cases)
+    bad = {fam_asm_key(d["input"]) for d in run.disagreements}
+    hexes = []
+    for c, im, rep in res:
+        idx = c["meta"]["stmt"]
+        b = im["stmts"][idx]["bytes"] if im["k"] == "ok" and len(im["stmts"]) > idx else None
+        hexes.append(b or "")
+    decs = oracle_asm.decode_all(hexes)
+    for (c, im, rep), d in zip(res, decs):
+        m = c["meta"]
+        same = fam_asm_key({"lines": c["lines"], "files": None}) not in bad
+        inp = {"lines": c["lines"], "position": m["pos"]}
+        if m.get("label"):
+            val = (symtab_ints(im).get("L") or 0) + m["k"] if im["k"] == "ok" else 0
+        else:
+            val = expr_value(m["a"], m["b"], m["op"])
+        run.case("asm.expr", {"src": [l.strip() for l in c["lines"]], "pos": m["pos"]}, [im["k"], val], nontrivial=True, sample_every=173)
+        run.dist["c04." + m["pos"] + "." + im["k"]] += 1
+        if im["k"] not in ("ok", "diag"):
+            run.violate("C13/C04: an expression operand ends in an internal error", inp, "ok|diag", [im["k"], im.get("exc")])
+            continue
+        if val is None:
+            if im["k"] != "diag":
+                rid = "C2" if m["pos"] in ("fcb", "fdb") else None      # data directives do not evaluate expressions at all
+                run.violate("C04: division by zero is not rejected with a diagnostic", inp, "diag", im["k"], known_id=rid if (rid and same) else None)
+            continue
+        if im["k"] == "diag":
+            if 0 <= val <= 65535:
+                rid = region_c04(m, val) if not m.get("label") else None
+                # positions that cannot hold the value legitimately reject: FCB > 255, 8-bit immediates
+                if m["pos"] == "fcb" and val > 255:
+                    continue
+                run.violate("C04: an expression with a representable value is rejected", inp, val, "diag", known_id=rid if (rid and same) else None)
+            continue                       # out of 0..65535: rejecting is allowed
+        st = im["stmts"][m["stmt"]]
+        v16 = val % 65536
+        got = None
+        pos = m["pos"]
+        if st["bytes"] is None:
+            continue
+        if pos in ("fdb", "fcb"):
+            got = int(st["bytes"], 16) if st["bytes"] else None
+            want = v16 if pos == "fdb" else (v16 if v16 < 256 else None)
+            okay = (got == want and len(st["bytes"]) == (4 if pos == "fdb" else 2))
+        elif pos == "equ":
+            okay = d.get("ok") and d.get("mode") == "imm" and d.get("v") == v16 and d["n"] == len(st["bytes"]) // 2
+            got = d.get("v")
+        else:
+            okay = bool(d.get("ok")) and d["n"] == len(st["bytes"]) // 2
+            if okay:
+                if pos == "imm":
+                    got = d.get("v")
+                    okay = d["mode"] == "imm" and got == v16
+                elif pos == "mem":
+                    got = d.get("a")
+                    okay = d["mode"] in ("dir", "ext") and got == v16
+                elif pos == "extind":
+                    got = d.get("addr")
+                    okay = d.get("k") == "extind" and got == v16
+                elif pos == "idx":
+                    got = d.get("off")
+                    okay = d.get("k") == "off" and (got - v16) % 65536 == 0
+                elif pos == "pcr":
+                    got = d.get("off")
+                    if m.get("label"):
+                        okay = d.get("k") == "pcr" and (stmt_int_addr(st) + d["n"] + got - val) % 65536 == 0
+                    else:
+                        okay = d.get("k") == "pcr" and (got - v16) % 65536 == 0
+        if not okay:
+            rid = region_c04(m, val)
+            run.violate("C04: the value encoded is not the arithmetic value of the expression (mod 65536) at the instruction's width", inp,
+                        {"value": val, "mod65536": v16}, {"bytes": st["bytes"], "decoded": got}, known_id=rid if (rid and same) else None)
+
+
+# ------------------------------------------------------------------ C05
+
+def lit_value(e):
+    """value of a literal element of FCB/FDB as the README grammar defines it (None = not a plain literal)"""
+    try:
+        if e.startswith("$"):
+            return int(e[1:], 16)
+        if e.startswith("%"):
+            return int(e[1:], 2)
+        if e.startswith("'") and len(e) == 2:
+            return ord(e[1])
+        return int(e, 10)
+    except ValueError:
+        return None
+
+
+def run_c05(run, thorough=False):
+    rnd = random.Random(run.seed * 433 + 19)
+    cases = list(gen_asm.data_cases(rnd, 300 if not thorough else 3000))
+    res = fam_asm.compare_progs(run, "asm.data", cases)
+    bad = {fam_asm_key(d["input"]) for d in run.disagreements}
+    for c, im, rep in res:
+        m = c["meta"]
+        mn = m["mn"]
+        same = fam_asm_key({"lines": c["lines"], "files": None}) not in bad
+        inp = {"lines": [l if len(l) < 300 else l[:300] + "..." for l in c["lines"]]}
+        run.case("asm.data", {"src": [l.strip()[:120] for l in c["lines"]]}, [im["k"], c["tag"]], nontrivial=True, sample_every=41)
+        run.dist["c05." + c["tag"] + "." + im["k"]] += 1
+        if im["k"] not in ("ok", "diag"):
+            rid = "I2" if mn == "INCLUDE" else None
+            run.violate("C13/C05: a data directive ends in an internal error", inp, "ok|diag", [im["k"], im.get("exc")], known_id=rid if (rid and same) else None)
+            continue
+        st = im["stmts"][m["stmt"]] if im["k"] == "ok" else None
+        got = st["bytes"] if st else None
+        if st is not None and got is None:
+            run.violate("C13/C05: emitting a data directive fails with an internal error", inp, "bytes", None, known_id=None)
+            continue
+        if mn in ("FCB", "FDB"):
+            w = 1 if mn == "FCB" else 2
+            vals = [lit_value(e) for e in m["elems"]]
+            if any(e == "SYM" for e in m["elems"]):
+                vals = [7 if e == "SYM" else v for e, v in zip(m["elems"], vals)]
+            if any(e == "" for e in m["elems"]) or any(v is None for v in vals):
+                continue                      # not a plain value list: no expectation
+            fits = all(-(1 << (8 * w - 1)) <= v < (1 << (8 * w)) for v in vals)
+            want = "".join("%0*x" % (2 * w, v % (1 << (8 * w))) for v in vals) if fits else None
+            rid = None
+            if any(e == "SYM" for e in m["elems"]):
+                rid = "C2"
+            elif any(v < 0 for v in vals):
+                rid = "D1"
+            elif not fits:
+                rid = "D2"
+            if want is None:
+                if im["k"] == "ok":
+                    run.violate("C05: a value that does not fit the directive's width is not rejected", inp, "diag", got, known_id=rid if same else None)
+            elif got != want:
+                run.violate("C05: %s does not emit the bytes it specifies (two's complement, high byte first)" % mn, inp, want, got if im["k"] == "ok" else "diag",
+                            known_id=rid if (rid and same) else None)
+        elif mn == "RMB":
+            v = m["v"]
+            n = lit_value(str(v)) if v != "SYM" else 7
+            if n is None:
+                continue
+            if n < 0 or n > 65535:
+                if im["k"] == "ok":
+                    run.violate("C05: RMB with a negative count is not rejected", inp, "diag", got[:40], known_id="D4" if same else None)
+                continue
+            rid = "C2" if v == "SYM" else None
+            if got != "00" * n:
+                run.violate("C05: RMB n does not reserve exactly n zero bytes", inp, "%d zero bytes" % n, None if got is None else "%d bytes" % (len(got) // 2),
+                            known_id=rid if (rid and same) else None)
+        elif mn == "FCC":
+            want = hexs([ord(ch) for ch in m["s"]])
+            opchars = set("abcdefghijklmnopqrstuvwxyzABCDEFGHIJKLMNOPQRSTUVWXYZ0123456789_[]><'\"@:,.#?$%^&*()=!+-/")
+            line = c["lines"][m["stmt"]]
+            tail = line.rstrip("\n").split(m["d"] + m["s"] + m["d"], 1)[-1] if (m["d"] + m["s"] + m["d"]) in line else "?"
+            # D3: the operand is rebuilt from two regex groups; exact only when the whole string lies in the operand character class
+            rid = "D3" if (any(ch not in opchars for ch in m["s"] + m["d"]) or tail.strip() != "" or m["s"] == "") else None
+            if got != want:
+                run.violate("C05: FCC does not emit exactly the characters between its delimiters", inp, want[:120], (got or im["k"])[:120],
+                            known_id=rid if (rid and same) else None)
+        else:
+            if im["k"] == "ok" and got != "":
+                run.violate("C05: %s emits bytes" % mn, inp, "", got)
+            if im["k"] != "ok" and mn == "END":
+                run.violate("C05: END (with or without operand) is not accepted", inp, "ok", im["k"])
+
+
+# ------------------------------------------------------------------ C13
+
+def run_c13(run, thorough=False):
+    import fam_cli
+    rnd = random.Random(run.seed * 557 + 23)
+    n = 400 if not thorough else 6000
+    cases = list(gen_asm.mutations(rnd, n)) + list(gen_asm.random_lines(rnd, n // 2)) + list(gen_asm.random_programs(rnd, n // 2, valid_bias=0.7)) + \
+        list(gen_asm.pcr_interacting(rnd, 60 if not thorough else 1200)) + list(gen_asm.include_cases(rnd, 10 if not thorough else 100)) + \
+        [c for c in gen_asm.branch_sweep(rnd, thorough) if c["tag"].startswith("pcr")][:: (1 if thorough else 3)] + \
+        list(gen_asm.data_cases(rnd, 80))
+    # structured stress: one or more label,PCR operands at every distance around the 8/16-bit boundary
+    for n_ in range(118, 132):
+        for mn in ("LDA", "LDY"):
+            cases.append({"lines": gen_asm.L(*([" %s L,PCR" % mn, " %s M,PCR" % mn] + [" NOP"] * n_ + ["L NOP", "M NOP"])), "tag": "pcr-stress", "meta": {}})
+            cases.append({"lines": gen_asm.L(*(["L NOP", "M NOP"] + [" NOP"] * n_ + [" %s L,PCR" % mn, " %s [M,PCR]" % mn])), "tag": "pcr-stress", "meta": {}})
+    res = fam_asm.compare_progs(run, "asm.any", cases, project=lambda r: {"k": r.get("k"), "image_ok": r.get("image") is not None if r.get("k") == "ok" else None})
+    bad = {fam_asm_key(d["input"]) for d in run.disagreements}
+    for c, im, rep in res:
+        k = im["k"]
+        if k == "ok" and im["image"] is None:
+            k = "emit-internal"
+        run.case("asm.any", {"tag": c["tag"], "src": [l.strip() for l in c["lines"]][:6]}, [k, c["tag"]], nontrivial=True, sample_every=331)
+        run.dist["c13." + c["tag"] + "." + k] += 1
+        if k in ("ok", "diag"):
+            continue
+        same = fam_asm_key({"lines": c["lines"], "files": c.get("files")}) not in bad
+        rid = "I2" if (c["tag"].startswith("include") or any("INCLUDE" in l.upper() for l in c["lines"])) else None
+        run.violate("C13: assembling does not end with output or a source-level diagnostic ({})".format(k),
+                    {"lines": c["lines"] if len(c["lines"]) < 40 else c["lines"][:4] + ["... %d lines" % len(c["lines"])], "files": c.get("files")},
+                    "ok | diag", [k, im.get("exc")], known_id=rid if (rid and same) else None)
+    # command line: a diagnostic gives a non-zero exit status and creates or modifies no output file
+    sub = [c for c in cases if c["tag"] in ("mutation", "random", "random-lines")][:: (8 if not thorough else 3)]
+    for i, c in enumerate(sub):
+        wd = fam_cli.WorkDir()
+        try:
+            with open(wd.path + "/src.asm", "w") as fh:
+                fh.write("".join(c["lines"]))
+            pre = rnd.choice([None, [1, 2, 3]])
+            if pre is not None:
+                wd.write("out.cas", pre)
+            ns = fam_cli.asm_namespace("src.asm", to_bin="out.bin", to_cas="out.cas", to_dsk="out.dsk", name="N", append=True)
+            code, out = fam_cli.run_main(fam_cli.asm_cli, ns, wd.path)
+            files = {f: wd.read(f) for f in ("out.bin", "out.cas", "out.dsk")}
+        finally:
+            wd.close()
+        im = fam_asm.impl_prog(c["lines"])
+        run.case("cli.exit", {"src": [l.strip() for l in c["lines"]][:4]}, [im["k"], code], nontrivial=True, sample_every=53)
+        if im["k"] == "diag":
+            changed = [f for f, v in files.items() if v is not None and not (f == "out.cas" and v == pre)]
+            if code == 0 or changed:
+                run.violate("C13: assembly ended with a diagnostic but the command exited 0 or created/modified an output file",
+                            {"lines": c["lines"]}, "non-zero exit, no file", {"exit": code, "files": changed})
+
+
+# ------------------------------------------------------------------ C17
+
+def run_c17(run, thorough=False):
+    import json as _json
+    import os as _os
+    import subprocess as _sp
+    from common import PYTHON, VERIF
+    rnd = random.Random(run.seed * 17 + 29)
+    progs = list(gen_asm.random_programs(rnd, 40 if not thorough else 300, valid_bias=0.95)) + list(gen_asm.mutations(rnd, 40 if not thorough else 300)) + \
+        [{"lines": gen_asm.L(*gen_asm.README_PROG), "tag": "readme", "meta": {}}]
+    pool = list(progs)
+    nhist = 25 if not thorough else 200
+    reqs = []
+    checked = []
+    for h in range(nhist):
+        P = rnd.choice(progs)
+        qs = [rnd.choice(pool) for _ in range(rnd.choice([1, 2, 3, 6]))]
+        before = fam_asm.impl_prog_canon(fam_asm.impl_prog(P["lines"]))
+        for q in qs:
+            fam_asm.impl_prog(q["lines"])
+        src = list(P["lines"])
+        r_after = fam_asm.impl_prog(src)
+        after = fam_asm.impl_prog_canon(r_after)
+        again = fam_asm.impl_prog_canon(fam_asm.impl_prog(P["lines"]))
+        run.case("asm.hist", {"P": [l.strip() for l in P["lines"]][:5], "history": [q["tag"] for q in qs]}, [after["k"], len(qs)], nontrivial=True, sample_every=7)
+        run.dist["c17.P." + after["k"]] += 1
+        for q in qs:
+            run.dist["c17.Q." + fam_asm.impl_prog(q["lines"])["k"]] += 1
+        if before != after or after != again:
+            run.violate("C17: assembling the same source gives a different result after other programs were assembled in the same process",
+                        {"P": P["lines"], "history": [q["lines"] for q in qs]}, before if len(str(before)) < 1500 else "(first result)",
+                        after if len(str(after)) < 1500 else "(different result)")
+        if not r_after.get("src_unchanged", True) or src != list(P["lines"]):
+            run.violate("C17: assembling modified the list of source lines it was given", {"P": P["lines"]}, "unchanged", "changed")
+        reqs.append({"op": "asm.prog", "id": len(reqs), "lines": P["lines"]})
+        checked.append((P, after))
+    # the history-free model must agree with the implementation's warm result
+    for (P, after), rep in zip(checked, drive(reqs)):
+        if fam_asm.model_prog_canon(rep) != after:
+            run.disagree("asm.hist", {"lines": P["lines"]}, {"k": after["k"]}, {"k": rep.get("k")}, "warm result differs from the history-free model")
+    # fresh processes under different hash seeds
+    nproc = 8 if not thorough else 60
+    for i in range(nproc):
+        P = rnd.choice(progs)
+        warm = fam_asm.impl_prog_canon(fam_asm.impl_prog(P["lines"]))
+        outs = []
+        for seed in (("0", "12345") if not thorough else ("0", "1", "4242", "random")):
+            env = dict(_os.environ, PYTHONHASHSEED=seed)
+            p = _sp.run([PYTHON, _os.path.join(VERIF, "harness", "asm_once.py")], input=_json.dumps(P["lines"]), capture_output=True, text=True, env=env, timeout=60)
+            outs.append(_json.loads(p.stdout) if p.returncode == 0 and p.stdout.strip() else {"k": "process-failed", "err": p.stderr[-300:]})
+        run.case("asm.fresh", {"P": [l.strip() for l in P["lines"]][:5]}, [warm["k"], "fresh-vs-warm"], nontrivial=True, sample_every=3)
+        for o in outs:
+            if o != _json.loads(_json.dumps(warm, sort_keys=True)):
+                run.violate("C17: a fresh process (other hash seed) gives a different result than the warm process", {"P": P["lines"]},
+                            warm if len(str(warm)) < 1500 else "(warm result)", o if len(str(o)) < 1500 else "(different)")
+                break
+
+
+# ------------------------------------------------------------------ C18
+
+REGNAMES = {"A", "B", "D", "X", "Y", "U", "S", "CC", "DP", "PC", "PCR"}
+
+
+def c18_programs(rnd, n):
+    """accepted-looking programs whose label references are label, label+n, label-n; ORG first, origin >= $100"""
+    out = []
+    for _ in range(n):
+        org = rnd.choice([0x0E00, 0x1000, 0x3F00, 0x7000, 0x200])
+        body = []
+        nst = rnd.randrange(3, 18)
+        labels = ["LA", "LB", "LOOP", "DATA1", "Q9"]
+        lab_at = {rnd.randrange(nst): l for l in labels}
+        for i in range(nst):
+            lab = lab_at.get(i, "")
+            ref = rnd.choice(labels)
+            st = rnd.choice([
+                "LDA #$12", "LDX #%s" % ref, "LDD #%s+2" % ref, "JMP %s" % ref, "JSR %s-1" % ref, "LDA %s" % ref, "STB >%s" % ref,
+                "BRA %s" % ref, "BNE %s" % ref, "LBSR %s" % ref, "LEAX %s,PCR" % ref, "LDY [%s,PCR]" % ref, "LEAU %s+1,PCR" % ref,
+                "NOP", "CLRA", "PSHS A,B,X", "TFR X,Y", "LDA ,X+", "STA 5,Y", "LDD $1234,U", "LDX [%s]" % ref, "FCB 1,2,3", "FDB $1234", "RMB 3",
+                "FCC \"AB\"", "LDA #C1", "LDB C1,X", "CMPX #$4000"])
+            body.append((lab, st))
+        lines = ["C1 EQU $20", " ORG $%04X" % org] + ["%s %s" % (l, s) for l, s in body]
+        for l in labels:
+            if l not in lab_at.values():
+                lines.append("%s NOP" % l)
+        out.append({"lines": gen_asm.L(*lines), "tag": "c18", "meta": {"org": org, "labels": labels}})
+    return out
+
+
+def reformat(rnd, lines):
+    out = []
+    for l in lines:
+        raw = l.rstrip("\n")
+        parts = raw.split(None, 2) if not raw.startswith(" ") else [""] + raw.split(None, 1)
+        if len(parts) < 2 or "FCC" in raw.upper():
+            out.append(l)
+            continue
+        lab = parts[0]
+        mn = parts[1]
+        op = parts[2] if len(parts) > 2 else ""
+        mn = rnd.choice([mn, mn.lower(), mn.capitalize()])
+        ws = lambda: rnd.choice([" ", "  ", "\t", "    ", " \t "])      # noqa: E731
+        cm = rnd.choice(["", " ; remark", "\t;x", " plain words here", " ;"]) if op else rnd.choice(["", " ; remark"])
+        out.append(lab + ws() + mn + (ws() + op if op else "") + cm + "\n")
+    return out
+
+
+def rename(lines, mapping):
+    out = []
+    for l in lines:
+        out.append(re.sub(r"[A-Za-z@][\w@]*", lambda m: mapping.get(m.group(0), m.group(0)), l))
+    return out
+
+
+def run_c18(run, thorough=False):
+    rnd = random.Random(run.seed * 883 + 31)
+    base = c18_programs(rnd, 60 if not thorough else 800)
+    variants = []
+    for c in base:
+        lines = c["lines"]
+        org = c["meta"]["org"]
+        D = rnd.choice([1, 2, 0x10, 0x100, 0x1000, -0x100, 0x7F, 0x3001])
+        if not (0x100 <= org + D <= 0xB000):
+            D = 0x100
+        shifted = [l.replace("ORG $%04X" % org, "ORG $%04X" % (org + D)) for l in lines]
+        names = c["meta"]["labels"]
+        new = ["ZED", "K2", "Lnew", "M1q", "W"] if rnd.random() < 0.85 else ["ZED", "K2", "Lnew", "M_1", "@W"]
+        rnd.shuffle(new)
+        mapping = dict(zip(names, new))
+        suffix = gen_asm.L(*rnd.choice([[" NOP", "EXTRA LDA #1", " BRA EXTRA"], ["TAIL FCB 1,2", " FDB TAIL"], [" LEAX LA,PCR", "NEW2 RTS"], [" RMB 300", " LDA LA"]]))
+        variants.append((c, D, shifted, mapping, rename(lines, mapping), reformat(rnd, lines), lines + suffix))
+    allcases = []
+    for c, D, sh, mp, rn, rf, ap in variants:
+        for tag, ls in (("base", c["lines"]), ("shift", sh), ("rename", rn), ("reformat", rf), ("append", ap)):
+            allcases.append({"lines": ls, "tag": tag, "meta": {}})
+    res = fam_asm.compare_progs(run, "asm.meta", allcases, project=proj_layout)
+    bad = {fam_asm_key(d["input"]) for d in run.disagreements}
+    it = iter(res)
+    todo = []
+    for c, D, sh, mp, rn, rf, ap in variants:
+        rb, rs, rr, rfm, ra = [next(it)[1] for _ in range(5)]
+        run.case("asm.meta", {"base": [l.strip() for l in c["lines"]][:6], "D": D}, [rb["k"]], nontrivial=rb["k"] == "ok", sample_every=11)
+        run.dist["c18.base." + rb["k"]] += 1
+        if rb["k"] != "ok" or any(s["bytes"] is None for s in rb["stmts"]):
+            continue
+        inp = {"lines": c["lines"]}
+        # R3 reformat: nothing changes
+        if not (rfm["k"] == "ok" and [(s["addr"], s["bytes"]) for s in rfm["stmts"]] == [(s["addr"], s["bytes"]) for s in rb["stmts"]] and rfm["symtab"] == rb["symtab"]):
+            run.violate("C18: changing white space / comments / mnemonic case changes bytes, addresses or symbol values", dict(inp, reformatted=rf), "identical output", rfm["k"])
+        # R2 rename: bytes and addresses identical, symbols renamed
+        if not (rr["k"] == "ok" and [(s["addr"], s["bytes"]) for s in rr["stmts"]] == [(s["addr"], s["bytes"]) for s in rb["stmts"]] and
+                [[mp.get(k, k), v] for k, v in rb["symtab"]] == rr["symtab"]):
+            rid = "S1" if any(("_" in v or "@" in v) for v in mp.values()) else None     # '_' / '@' in a symbol: definable, not always referable
+            same = fam_asm_key({"lines": rn, "files": None}) not in bad
+            run.violate("C18: consistently renaming labels changes bytes, addresses or symbol values", dict(inp, mapping=mp), "identical output", rr["k"],
+                        known_id=rid if (rid and same) else None)
+        # R4 append: the statements already there keep bytes, addresses, symbols
+        n = len(rb["stmts"])
+        if not (ra["k"] == "ok" and [(s["addr"], s["bytes"]) for s in ra["stmts"][:n]] == [(s["addr"], s["bytes"]) for s in rb["stmts"]] and
+                all(kv in ra["symtab"] for kv in rb["symtab"])):
+            run.violate("C18: appending statements after the last one changes the bytes, addresses or symbols of the statements already there",
+                        dict(inp, appended=ap[len(c["lines"]):]), "prefix unchanged", ra["k"])
+        # R1 relocation
+        if rs["k"] != "ok":
+            run.violate("C18: moving the origin makes an accepted program rejected", dict(inp, D=D), "ok", rs["k"])
+            continue
+        labels = {k for k, v in rb["symtab"] if k != "C1"}
+        sb, ss = symtab_ints(rb), symtab_ints(rs)
+        if any(ss.get(k) != (sb[k] + D if k in labels else sb[k]) for k in sb):
+            run.violate("C18: moving the origin by D does not move every label by exactly D (or moves a constant)", dict(inp, D=D), "labels + D", [rb["symtab"], rs["symtab"]])
+            continue
+        for a, b in zip(rb["stmts"], rs["stmts"]):
+            if stmt_int_addr(b) != stmt_int_addr(a) + D and a["mn"] not in ("EQU", "NAM"):
+                run.violate("C18: moving the origin by D does not move every address by D", dict(inp, D=D), a["addr"], b["addr"])
+                break
+            todo.append((c, D, a, b, labels))
+    decs = oracle_asm.decode_all([x[2]["bytes"] for x in todo] + [x[3]["bytes"] for x in todo])
+    half = len(todo)
+    for i, (c, D, a, b, labels) in enumerate(todo):
+        if a["bytes"] == b["bytes"]:
+            continue
+        da, db = decs[i], decs[half + i]
+        row = ROWS.get(a["mn"])
+        inp = {"lines": c["lines"], "D": D, "statement": [a["mn"], a["opnd"]]}
+        if row is None or row.is_pseudo:
+            if a["mn"] == "FDB" and any(l in (a["opnd"] or "") for l in labels):
+                continue
+            run.violate("C18: moving the origin changes the bytes of a data directive", inp, a["bytes"], b["bytes"])
+            continue
+        refs_label = any(re.search(r"(?<![\w@])" + re.escape(l) + r"(?![\w@])", a["opnd"] or "") for l in labels)
+        absolute = da.get("ok") and db.get("ok") and da["mode"] == db["mode"] and da["mode"] in ("ext", "imm", "idx", "dir")
+        if not (refs_label and absolute):
+            run.violate("C18: moving the origin changes the bytes of a statement that has no absolute reference to an own label (or a relative displacement changed)",
+                        inp, a["bytes"], b["bytes"])
+            continue
+        va = da.get("a", da.get("v", da.get("addr")))
+        vb = db.get("a", db.get("v", db.get("addr")))
+        if va is None or vb is None or (vb - va - D) % 65536 != 0:
+            run.violate("C18: an absolute reference to an own label does not change by exactly D", inp, {"old": va, "D": D}, {"new": vb})
+
+
+# ------------------------------------------------------------------ C19
+
+def run_c19(run, thorough=False):
+    rnd = random.Random(run.seed * 71 + 37)
+    cases = list(gen_asm.include_cases(rnd, 40 if not thorough else 600))
+    flat_cases = [{"lines": c["meta"]["flat"], "tag": "flat", "meta": {}} for c in cases if "flat" in c["meta"]]
+    res = fam_asm.compare_progs(run, "asm.include", cases, project=proj_layout)
+    res_flat = fam_asm.compare_progs(run, "asm.include", flat_cases, project=proj_layout)
+    bad = {fam_asm_key(d["input"]) for d in run.disagreements}
+    fi = iter(res_flat)
+    for c, im, rep in res:
+        same = fam_asm_key({"lines": c["lines"], "files": c.get("files")}) not in bad
+        inp = {"lines": c["lines"], "files": c.get("files")}
+        run.case("asm.include", {"main": [l.strip() for l in c["lines"]][:6], "files": sorted((c.get("files") or {}).keys())}, [im["k"], c["tag"]], nontrivial=True, sample_every=5)
+        run.dist["c19." + c["tag"] + "." + im["k"]] += 1
+        if c["tag"] in ("include-missing", "include-cycle"):
+            if im["k"] != "diag":
+                run.violate("C19: a missing include file / an inclusion cycle is not reported as a diagnostic", inp, "diag", [im["k"], im.get("exc")],
+                            known_id="I2" if same else None)
+            continue
+        fc, fim, frep = next(fi)
+        a = proj_layout(fam_asm.impl_prog_canon(im))
+        b = proj_layout(fam_asm.impl_prog_canon(fim))
+        if a != b:
+            run.violate("C19: a program with INCLUDE does not assemble to the image / addresses / symbol table of the textually spliced program", inp,
+                        {"k": b.get("k")}, {"k": a.get("k")})
